@@ -24,6 +24,7 @@ if [ -n "$RACE" ]; then
   export GORACE="halt_on_error=0 exitcode=0 log_path=$RL"
   export VERIF_RACELOG="$RL"
 fi
+export GOTRACEBACK=all
 OUT="$ROOT/.work/out-$ID-$$.log"
 "$ROOT/.bin/$BIN" "$ID" --tier "$TIER" > "$OUT" 2>&1
 RC=$?
